@@ -7,7 +7,7 @@ from .. import common as C
 from . import c17
 
 ID = "C18"
-MODULES = ["Helios.Props.CodeCfg", "Helios.Props.CodeWire", "Helios.Props.C18", "Helios.Props.C17", "Helios.Props.Facts"]
+MODULES = ["Helios.Props.CodeCfg", "Helios.Props.CodeWire", "Helios.Props.CodeHdr", "Helios.Props.C18", "Helios.Props.C17", "Helios.Props.Facts"]
 THEOREMS = ["Helios.Cfg.validate_iff_documented", "Helios.Cfg.validate_first", "Helios.Cfg.accepted_breaker_live",
             "Helios.Cfg.accepted_values_fit",
             # Tie C: Config.Validate and its eleven section validators, translated from the source on every run
@@ -18,7 +18,9 @@ THEOREMS = ["Helios.Cfg.validate_iff_documented", "Helios.Cfg.validate_first", "
             "Helios.CodeTie.createHealthChecker_refines", "Helios.CodeTie.cbEff_accepted", "Helios.CodeTie.rlEff_accepted", "Helios.CodeTie.wsEff_accepted",
             "Helios.CodeTie.translation_clean_wire",
             "Helios.Http.startup_fail_closed",
-            "Helios.Facts.strategies_eq", "Helios.Facts.log_enums_eq"]
+            "Helios.Facts.strategies_eq", "Helios.Facts.log_enums_eq",
+            # Tie C: the header-name check start-up applies to the identifier features (repair 23ca3a9), translated on every run
+            "Helios.CodeTie.validHeaderFieldName_refines", "Helios.CodeTie.translation_clean_hdr"]
 
 # section variants: (yaml text, compact fields); index 0 is always a valid variant
 SERVER = [("server:\n  port: 8080\n", "port=8080"), ("server:\n  port: 1\n", "port=1"), ("server:\n  port: 65535\n  tls:\n    enabled: true\n    certFile: c.pem\n    keyFile: k.pem\n", "port=65535;tls=1;cert=c.pem;key=k.pem"),
@@ -31,7 +33,9 @@ TIMEOUTS = [("", ""), ("    read: 15\n    write: 15\n    idle: 60\n    handler: 
             # the largest number of seconds a time.Duration holds, and one more
             ("    read: 9223372036\n    backend_idle: 9223372036\n", "tr=9223372036;tbi=9223372036"),
             ("    handler: 9223372037\n", "th=9223372037"), ("    backend_read: 99999999999\n    write: 9223372037\n", "tbr=99999999999;tw=9223372037"),
-            ("    shutdown: 9223372037\n    idle: -1\n", "ts=9223372037;ti=-1")]
+            ("    shutdown: 9223372037\n    idle: -1\n", "ts=9223372037;ti=-1"),
+            # seconds whose conversion to nanoseconds wraps past 2^64 back to a small positive duration
+            ("    handler: 18446744074\n", "th=18446744074"), ("    backend_read: 36893488148\n", "tbr=36893488148")]
 BACKENDS = [("backends:\n  - name: s1\n    address: http://localhost:8081\n    weight: 5\n  - name: s2\n    address: http://localhost:8082\n", "b=s1|http://localhost:8081|5,s2|http://localhost:8082|0"),
             ("backends:\n  - name: only\n    address: http://127.0.0.1:9\n    weight: 0\n", "b=only|http://127.0.0.1:9|0"),
             ("backends: []\n", "b="), ("", "b="),
@@ -64,12 +68,14 @@ HEALTH = [("", ""), ("health_checks:\n  active:\n    enabled: true\n    interval
           ("health_checks:\n  active:\n    enabled: true\n    interval: 0\n    timeout: 5\n    path: /health\n  passive:\n    enabled: true\n    unhealthy_threshold: 3\n    unhealthy_timeout: 30\n", "act=1;ai=0;at=5;ap=/health;pas=1;pt=3;pto=30"),
           ("health_checks:\n  passive:\n    enabled: true\n    unhealthy_threshold: 2\n    unhealthy_timeout: 9223372037\n", "pas=1;pt=2;pto=9223372037"),
           ("health_checks:\n  passive:\n    enabled: true\n    unhealthy_threshold: 2\n    unhealthy_timeout: 9223372036\n", "pas=1;pt=2;pto=9223372036"),
+          ("health_checks:\n  passive:\n    enabled: true\n    unhealthy_threshold: 2\n    unhealthy_timeout: 18446744074\n", "pas=1;pt=2;pto=18446744074"),
           ("health_checks:\n  active:\n    enabled: true\n    interval: 9223372038\n    timeout: 9223372037\n    path: /h\n", "act=1;ai=9223372038;at=9223372037;ap=/h"),
           ("health_checks:\n  active:\n    enabled: false\n    interval: 0\n  passive:\n    enabled: true\n    unhealthy_threshold: 0\n    unhealthy_timeout: 30\n", "act=0;ai=0;pas=1;pt=0;pto=30")]
 RL = [("", ""), ("rate_limit:\n  enabled: true\n  max_tokens: 100\n  refill_rate_seconds: 1\n", "rl=1;rlm=100;rlr=1"),
       ("rate_limit:\n  enabled: true\n  max_tokens: 0\n  refill_rate_seconds: 1\n", "rl=1;rlm=0;rlr=1"),
       ("rate_limit:\n  enabled: true\n  max_tokens: 5\n", "rl=1;rlm=5"), ("rate_limit:\n  enabled: false\n  max_tokens: -5\n", "rlm=-5"),
-      ("rate_limit:\n  enabled: true\n  max_tokens: 5\n  refill_rate_seconds: 9223372037\n", "rl=1;rlm=5;rlr=9223372037")]
+      ("rate_limit:\n  enabled: true\n  max_tokens: 5\n  refill_rate_seconds: 9223372037\n", "rl=1;rlm=5;rlr=9223372037"),
+      ("rate_limit:\n  enabled: true\n  max_tokens: 5\n  refill_rate_seconds: 18446744074\n", "rl=1;rlm=5;rlr=18446744074")]
 CB = [("", ""), ("circuit_breaker:\n  enabled: true\n  max_requests: 5\n  interval_seconds: 60\n  timeout_seconds: 60\n  failure_threshold: 5\n  success_threshold: 2\n", "cb=1;cbm=5;cbi=60;cbt=60;cbf=5;cbs=2"),
       ("circuit_breaker:\n  enabled: true\n  interval_seconds: 60\n  timeout_seconds: 60\n  failure_threshold: 5\n  success_threshold: 2\n", "cb=1;cbi=60;cbt=60;cbf=5;cbs=2"),
       ("circuit_breaker:\n  enabled: true\n  failure_threshold: 50\n", "cb=1;cbf=50"),
@@ -82,6 +88,7 @@ CB = [("", ""), ("circuit_breaker:\n  enabled: true\n  max_requests: 5\n  interv
       ("circuit_breaker:\n  enabled: true\n  max_requests: 4294967297\n  interval_seconds: 60\n  timeout_seconds: 60\n  failure_threshold: 5\n  success_threshold: 5\n", "cb=1;cbm=4294967297;cbi=60;cbt=60;cbf=5;cbs=5"),
       ("circuit_breaker:\n  enabled: true\n  max_requests: 4294967295\n  interval_seconds: 9223372036\n  timeout_seconds: 60\n  failure_threshold: 4294967295\n  success_threshold: 2\n", "cb=1;cbm=4294967295;cbi=9223372036;cbt=60;cbf=4294967295;cbs=2"),
       ("circuit_breaker:\n  enabled: true\n  interval_seconds: 9223372037\n  timeout_seconds: 60\n  failure_threshold: 3\n  success_threshold: 1\n", "cb=1;cbi=9223372037;cbt=60;cbf=3;cbs=1"),
+      ("circuit_breaker:\n  enabled: true\n  interval_seconds: 18446744074\n  timeout_seconds: 27670116111\n  failure_threshold: 3\n  success_threshold: 1\n", "cb=1;cbi=18446744074;cbt=27670116111;cbf=3;cbs=1"),
       ("circuit_breaker:\n  enabled: true\n  interval_seconds: 60\n  timeout_seconds: 9223372037\n  failure_threshold: 4294967296\n  success_threshold: 1\n", "cb=1;cbi=60;cbt=9223372037;cbf=4294967296;cbs=1"),
       ("circuit_breaker:\n  enabled: true\n  interval_seconds: 60\n  timeout_seconds: 60\n  failure_threshold: 3\n  success_threshold: 4294967296\n", "cb=1;cbi=60;cbt=60;cbf=3;cbs=4294967296"),
       ("circuit_breaker:\n  enabled: false\n  max_requests: 4294967297\n", "cbm=4294967297")]
@@ -264,7 +271,7 @@ def oracle(ep, outs):
 
 def wireall_episode(rng):
     small = lambda lo: rng.choice([lo, 1, 2, 3, 5, 30, 300])
-    big = lambda lo: rng.choice([lo, 1, 7, 3600, 86400, MAXS, MAXS + 1])
+    big = lambda lo: rng.choice([lo, 1, 7, 3600, 86400, MAXS, MAXS + 1, 18446744074])
     pick = lambda lo: big(lo) if rng.random() < 0.15 else small(lo)
     at = pick(1)
     ai = at + rng.choice([1, 1, 5, 0]) if rng.random() < 0.9 else pick(1)
